@@ -212,6 +212,21 @@ func init() {
 		}
 		return hexOut([]byte(m.Funcs[0].Sig.Params[0].String()))
 	})
+	// ty.text <desc>: the module text ty.rt feeds the parser (the type as a parameter of a declaration), for LLVM's own assembler
+	reg("ty.text", func(a []string) string {
+		nm := map[string]*types.StructType{}
+		t := parseTyIn(nm, a[0])
+		var sb strings.Builder
+		for name := range nm {
+			fmt.Fprintf(&sb, "%s = type { i32, %s* }\n", (&types.StructType{TypeName: name}).String(), (&types.StructType{TypeName: name}).String())
+		}
+		use := t
+		if _, ok := t.(*types.FuncType); ok {
+			use = types.NewPointer(t)
+		}
+		fmt.Fprintf(&sb, "declare void @f(%s)\n", use)
+		return hexOut([]byte(sb.String()))
+	})
 	// printing a type and parsing it back preserves equality
 	reg("ty.rt", func(a []string) string {
 		nm := map[string]*types.StructType{}
